@@ -81,12 +81,25 @@ def motif_netlists(draw):
     return nl
 
 
+def machinery_labels(draw, nl):
+    """One case in four: labels of the kind the machinery itself hands out while it works (temporaries, synthesised gates):
+    tmp_<k>, s<k> - in an order of their own."""
+    if draw(st.integers(0, 3)):
+        return nl
+    labs_ = [g[0] for g in nl['gates']]
+    perm = draw(st.permutations(list(range(len(labs_)))))
+    pre = draw(st.sampled_from(['tmp_', 'tmp_', 'tmp_', 's']))
+    ren = {l: f'{pre}{perm[i]}' for i, l in enumerate(labs_)}
+    return dict(nl, inputs=[ren[x] for x in nl['inputs']], outputs=[ren[x] for x in nl['outputs']],
+                gates=[[ren[l], t, [ren[o] for o in ops]] for l, t, ops in nl['gates']], style='mixed')
+
+
 @st.composite
 def cases(draw, tier):
     big = tier == 'thorough'
     shape = draw(st.sampled_from(['live', 'live', 'dead', 'unsupported', 'motif', 'motif', 'motif', 'motif']))
     if shape == 'motif':
-        nl = draw(motif_netlists())
+        nl = machinery_labels(draw, draw(motif_netlists()))
         return {
             'nl': nl, 'shape': shape,
             'basis': draw(st.sampled_from(['XAIG', 'FULL', 'XAIG', 'AIG', 'enum:XAIG'])),
@@ -112,6 +125,7 @@ def cases(draw, tier):
         nl = dict(nl, gates=[g for g in nl['gates'] if g[1] == 'INPUT' or g[0] in reach])
     if shape != 'unsupported' and draw(st.booleans()):
         nl = inflate(nl, [draw(st.integers(0, 30)) for _ in range(draw(st.integers(1, 3)))])
+    nl = machinery_labels(draw, nl)
     extra_out = draw(st.sampled_from([None, None, None, 'input', 'input', 'repeat']))
     if extra_out and nl['outputs']:
         # an output that is a primary input (pass-through wire), or the same gate listed at two output positions
@@ -443,7 +457,7 @@ SPEC = {
              'wellformed(); FailedValidationError is always a violation; any other exception is a violation on circuits without '
              'functionally equivalent gates. Case classes eq / comp / clean, const, dead computed from reference tables. '
              'Finite part: all 780 two-motif chains (sharded, every run). Non-trivial: the result differs structurally from the argument.'
-             ' Added during the build: sharded sweep wide_cuts (AND / OR / NAND / NOR trees over 7, thorough also 8, inputs plus one redundant gate, widest-cut policy, 3 s / 10 s solver limit), pass-through and repeated outputs, named blocks on the argument.'),
+             ' Added during the build: labels of the kind the machinery hands out itself (tmp_<k>, s<k>), sharded sweep wide_cuts (AND / OR / NAND / NOR trees over 7, thorough also 8, inputs plus one redundant gate, widest-cut policy, 3 s / 10 s solver limit), pass-through and repeated outputs, named blocks on the argument.'),
     'assumptions': ['cut enumerator and SAT solver are stand-ins inside the quantified domain (any admissible cut family, any sound and complete solver)'],
     'sharded': {'motif_pairs': motif_pairs_sweep, 'wide_cuts': wide_cuts_sweep},
     'replay': {'motif_pairs': replay_motif_pair, 'wide_cuts': replay_motif_pair},
